@@ -5,7 +5,7 @@
      labels      L = the used physical labels;  internal index = rank;
      cal         the label's own table entries (p, T1, T2, tm, rout);  cal2: the ordered pair's own (t_int, p_int);
      phases      the builder's symbolic phases a + b * pi/2, all zero at the start;
-     op1         rz(angle) | X | SX | delay(duration)      op2  (cx | ecr, direction),  direction = control label < target label
+     op1         rz(angle) | X | SX | delay(duration * dt)    op2  (cx | ecr, direction),  direction = control label < target label
      gate1/2     the gate-set functions applied to the operation's OWN phases and OWN table entries, as circuit.py passes them;
                  the 4x4 matrix is read on the ordered pair (control, target): for control index > target index the code stores
                  CNOT_inv / ECR_inv(...) on [target, control], which is the slot-swapped matrix on (control, target);
@@ -58,7 +58,7 @@ Record pcal := mkpcal { c_tint : V; c_pint : V }.
 Definition T1tab (q : nat) : qcal :=
   let q' := N.of_nat q in mkqcal (val (Tp q')) (val (TT1 q')) (val (TT2 q')) (val (Ttm q')) (val (Trout q')).
 Definition T2tab (c t : nat) : pcal := mkpcal (val (Ttint (N.of_nat c) (N.of_nat t))) (val (Tpint (N.of_nat c) (N.of_nat t))).
-Inductive op1 := O1rz (th : A) | O1g (k : kind1) | O1relax (d : D).
+Inductive op1 := O1rz (th : A) | O1g (k : kind1) | O1relax (dt : V).   (* a delay carries ITS OWN value of duration * dt *)
 Notation op2 := (kind2 * bool)%type.
 Notation pop := (pop op1 op2).
 Definition pair_args (cc ct : qcal) (c2 : pcal) : list V :=
@@ -67,7 +67,7 @@ Definition gate1 (o : op1) (p : Z * Z) (c : qcal) : option (m2 R) :=
   match o with
   | O1rz _ => None
   | O1g k => Some (g1 k (pneg p) [c_p c; c_T1 c; c_T2 c])
-  | O1relax d => Some (grelax [val (Ttime d); c_T1 c; c_T2 c])
+  | O1relax dt => Some (grelax [dt; c_T1 c; c_T2 c])
   end.
 Definition next1 (o : op1) (p : Z * Z) : Z * Z := match o with O1rz th => padd p (ph th) | _ => p end.
 Definition gate2 (o : op2) (pc pt : Z * Z) (cc ct : qcal) (c2 : pcal) : m4 R :=
@@ -96,7 +96,7 @@ Definition pop_of_call (L : list nat) (c : call) : list pop :=
   | CRz v th => [P1 op1 op2 (O1rz th) (lab L v)]
   | C1 k _ q => [P1 op1 op2 (O1g k) (N.to_nat q)]
   | C2 k cv tv c' t => [P2 op1 op2 (k, cv <? tv) (N.to_nat c') (N.to_nat t)]
-  | CRelax _ d q => [P1 op1 op2 (O1relax d) (N.to_nat q)]
+  | CRelax _ d q => [P1 op1 op2 (O1relax (val (Ttime d))) (N.to_nat q)]
   | CBitflip _ _ => []
   end.
 Definition pops_of_calls (L : list nat) (cs : list call) : list pop := flat_map (pop_of_call L) cs.
